@@ -454,16 +454,14 @@ func extractCurrentTagName(line string, pos int) string {
 
 	beforeCursor := afterSemicolon[:cursorInComment]
 
-	lastColon := strings.LastIndex(beforeCursor, ":")
-	if lastColon == -1 {
+	// the tag being typed starts behind the last comma; its name ends at the first colon
+	// (a value may contain colons itself: "client:ref:7")
+	start := strings.LastIndex(beforeCursor, ",") + 1
+	colon := strings.Index(beforeCursor[start:], ":")
+	if colon == -1 {
 		return ""
 	}
-
-	lastComma := strings.LastIndex(beforeCursor[:lastColon], ",")
-	start := lastComma + 1
-	tagName := strings.TrimSpace(beforeCursor[start:lastColon])
-
-	return tagName
+	return strings.TrimSpace(beforeCursor[start : start+colon])
 }
 
 // generateDateCompletionItems creates date suggestions with today/yesterday/tomorrow at top.
@@ -737,11 +735,13 @@ func fragmentStart(line string, byteCol int, ctxType CompletionContextType) (int
 			start--
 		}
 	case ContextTagValue:
-		colon := strings.LastIndex(before, ":")
+		// the value starts behind the first colon of the tag being typed ("client:ref:7")
+		tagStart := strings.LastIndexAny(before, ",;") + 1
+		colon := strings.Index(before[tagStart:], ":")
 		if colon == -1 {
 			return 0, false
 		}
-		start = skipBlanks(before, colon+1)
+		start = skipBlanks(before, tagStart+colon+1)
 	default:
 		return 0, false
 	}
